@@ -10,6 +10,8 @@ use std::sync::atomic::Ordering;
 use zeroize::Zeroize;
 
 pub const LENGTHS: [usize; 10] = [0, 1, 16, 32, 64, 4095, 4096, 4097, 8192, 8193];
+/// lengths for the resizable container: the fixed list plus sizes beyond glibc's mmap threshold (128 KiB)
+pub const BYTES_LENGTHS: [usize; 13] = [0, 1, 16, 32, 64, 4095, 4096, 4097, 8192, 8193, 131072, 200000, 262145];
 
 #[derive(Debug, Clone, Copy, PartialEq, Eq, Serialize, Deserialize)]
 pub enum Ctor {
@@ -527,7 +529,7 @@ impl<A: Container> Exec<A> {
         let mut touched: Option<usize> = None;
         match op {
             Op::New { ctor, len_idx } => {
-                let len = A::FIXED.unwrap_or(LENGTHS[len_idx % LENGTHS.len()]);
+                let len = A::FIXED.unwrap_or(BYTES_LENGTHS[len_idx % BYTES_LENGTHS.len()]);
                 self.new_region(*ctor, len, &step)?;
                 touched = self.regs.len().checked_sub(1);
             }
@@ -641,7 +643,7 @@ impl<A: Container> Exec<A> {
             }
             Op::Resize(k, li) => {
                 let Some(i) = pick(*k) else { return Ok(()) };
-                let n = LENGTHS[li % LENGTHS.len()];
+                let n = BYTES_LENGTHS[li % BYTES_LENGTHS.len()];
                 let fillv = 1 + (stepno % 200) as u8;
                 let is_locked = matches!(self.regs[i].0, Reg::L(_));
                 if is_locked && self.refusing_now() {
